@@ -19,7 +19,7 @@ def flush (c : Cli) (extra : List String := []) : Cli × String :=
   let body := if items.isEmpty then "-" else " ; ".intercalate items
   let win := if c.win.isEmpty then "-" else ",".intercalate (c.win.map fun e => toString e.seq)
   ({ c with log := [] },
-    s!"{body} | run={b2s c.running} fail={b2s c.failure} cs={c.conState} vs={c.vs} vr={c.vr} un={c.unconf} rb={c.recvBuf.length} win={win}")
+    s!"{body} | run={b2s c.running} fail={b2s c.failure} cs={c.conState} vs={c.vs} vr={c.vr} un={c.unconf} rb={c.recvBuf.length} t2={if c.t2Trigger then toString (c.lastConf.getD 0) else "-"} win={win}")
 
 def handle (st : St) (ws : List String) : Option (St × String) :=
   match ws with
